@@ -798,17 +798,20 @@ func (g *checker) famProg() {
 						vals[i] = V[y%len(V)]
 						y /= len(V)
 					}
-					s := progSpec(vals, seq)
-					s.class = fmt.Sprint(si)
-					return s
+					return progSpec(vals, seq)
 				})
 			}
 		}
 	}
 }
 
-// minimiseProg finds the shortest failing prefix of a failing straight-line program.
+// minimiseProg finds the shortest failing prefix of a failing straight-line program and keys the finding on the
+// last opcode of that prefix with the operand class the reference sees there, i.e. the same signature the
+// single-opcode families give to the same defect.
 func (g *checker) minimiseProg(s *spec, v *verdict) *verdict {
+	if !strings.HasPrefix(v.sig, "C10:opcode:") {
+		return v
+	}
 	// recover values / ops from the body: sentinel (33 bytes) + pushes + ops
 	body := s.body
 	i := 33
@@ -816,19 +819,24 @@ func (g *checker) minimiseProg(s *spec, v *verdict) *verdict {
 		i += 1 + int(body[i]-0x5f)
 	}
 	ops := body[i:]
-	for l := 1; l < len(ops); l++ {
+	for l := 1; l <= len(ops); l++ {
 		ps := &spec{fam: "prog3", op: name(ops[l-1]), body: append(append([]byte{}, body[:i]...), ops[:l]...)}
-		ps.desc = s.desc + fmt.Sprintf(" (prefix of %d ops)", l)
-		code, probe := g.assemble(ps)
-		k := &kase{Fam: ps.fam, Op: ps.op, Desc: ps.desc, Table: g.table, Code: hex.EncodeToString(code), Input: hex.EncodeToString(calldata), Probe: probe}
-		if pv := g.judge(k, code, ""); pv != nil {
-			v = pv
-			break
+		ps.desc = s.desc
+		if l < len(ops) {
+			ps.desc += fmt.Sprintf(" (first %d ops)", l)
 		}
-	}
-	if strings.HasPrefix(v.sig, "C10:opcode:") {
-		v.sig = "C10:prog:" + strings.TrimPrefix(v.sig, "C10:opcode:")
-		v.k.Sig = v.sig
+		code, probe := g.assemble(ps)
+		// operands of the last op as the reference sees them
+		r := refevm.Run(code, g.refcfg(i+l-1))
+		args := []*big.Int{big.NewInt(1), big.NewInt(1), big.NewInt(1)}
+		for j := 0; j < 3 && j < len(r.ProbeStack); j++ {
+			args[j] = r.ProbeStack[len(r.ProbeStack)-1-j]
+		}
+		k := &kase{Fam: ps.fam, Op: ps.op, Class: classOf(ops[l-1], args...), Desc: ps.desc, Table: g.table, Code: hex.EncodeToString(code),
+			Input: hex.EncodeToString(calldata), Probe: probe}
+		if pv := g.judge(k, code, ""); pv != nil {
+			return pv
+		}
 	}
 	return v
 }
@@ -1061,9 +1069,6 @@ func replay(c *fw.Ctx, raw json.RawMessage) {
 		kind = "jump"
 	}
 	if v := g.judge(&k, code, kind); v != nil {
-		if strings.HasPrefix(k.Sig, "C10:prog:") && strings.HasPrefix(v.sig, "C10:opcode:") {
-			v.sig = "C10:prog:" + strings.TrimPrefix(v.sig, "C10:opcode:")
-		}
 		c.Violation(v.sig, k.Fam, v.msg, v.k)
 	}
 }
